@@ -238,10 +238,25 @@ pub fn run(opts: &Opts) -> Report {
         let store = &ex.store;
         let sets: Vec<String> = vec!["*".into(), "s0".into(), "s1".into(), "s9".into()];
         let keys: Vec<String> = vec!["*".into(), "k0".into(), "k1".into(), "k2".into(), "k9".into()];
-        for _ in 0..(if opts.thorough() { 60 } else { 30 }) {
-            let set = rng.pick(&sets).clone();
-            let key = rng.pick(&keys).clone();
-            let os = rng.pick(&ops).clone();
+        let mut queries: Vec<(String, String, String)> = vec![];
+        for _ in 0..(if opts.thorough() { 60 } else { 30 }) { queries.push((rng.pick(&sets).clone(), rng.pick(&keys).clone(), rng.pick(&ops).clone())); }
+        // targeted: for the items of the store, the exact-match operator of their own value under their own set and key
+        // (several items may carry the same key and value when they were given identifiers: all of them must be found)
+        for (ds, dk, dv, _) in all_data(store).into_iter().take(16) {
+            let exact = match dv.split_once(':') {
+                Some(("i", n)) => format!("eqi:{}", n),
+                Some(("f", q_)) => format!("eqf:{}", q_),
+                Some(("s", x)) => format!("eq:{}", hex(x)),
+                Some(("b", "1")) => "true".to_string(),
+                Some(("b", _)) => "false".to_string(),
+                Some(("d", t_)) => format!("dte:{}", t_),
+                _ => if dv == "n" { "null".to_string() } else { continue },
+            };
+            if ds == "~" || dk == "~" { continue; }
+            queries.push((ds.clone(), dk.clone(), exact.clone()));
+            if rng.chance(30) { queries.push(("*".into(), "*".into(), exact)); }
+        }
+        for (set, key, os) in queries {
             let t: Vec<&str> = os.split_whitespace().collect();
             // scan
             let mut want: Vec<String> = vec![];
